@@ -10,6 +10,11 @@
 (* location of the pixel centre in the coordinates of the grid and the     *)
 (* extent of the pixel there, in 1/1000 lattice units.                     *)
 (* Checked with GeoRef.ReprojPixelOK: C01 for a reprojected request.       *)
+(* infos: feature-info requests in the other reference system and the      *)
+(* request each caused upstream (the source speaks the SRS of the grid     *)
+(* only): the clicked pixel as above, the upstream image size, the pixel   *)
+(* asked about and the rectangle it covers on the grid -                   *)
+(* GeoRef.ReprojInfoOK.                                                    *)
 (***************************************************************************)
 EXTENDS GeoRef, Json, IOUtils, TLCExt
 
@@ -23,9 +28,13 @@ P4(p) == [gx |-> p[1], gy |-> p[2], fx |-> p[3], fy |-> p[4]]
 BadPixels(c) == {k \in 1 .. Len(c.px) : ~ReprojPixelOK(G, Ext, P4(c.at[k]), O3(c.px[k]))}
 MapOK(c) == Len(c.px) = c.w * c.h /\ Len(c.at) = c.w * c.h /\ BadPixels(c) = {}
 BadMaps == {i \in 1 .. Len(Data.maps) : ~MapOK(Data.maps[i])}
+R4(r) == <<r[1], r[2], r[3], r[4]>>
+InfoCaseOK(c) == ReprojInfoOK(P4(c.at), c.uw, c.uh, c.ui, c.uj, R4(c.r))
+BadInfos == {i \in 1 .. Len(Data.infos) : ~InfoCaseOK(Data.infos[i])}
 First(S) == IF S = {} THEN 0 ELSE CHOOSE i \in S : \A j \in S : i <= j
 ASSUME PrintT(<<"verdict", [map |-> First(BadMaps), nmap |-> Cardinality(BadMaps),
                             badpx |-> IF BadMaps = {} THEN {} ELSE BadPixels(Data.maps[First(BadMaps)]),
+                            info |-> First(BadInfos), ninfo |-> Cardinality(BadInfos),
                             shown |-> Cardinality({i \in 1 .. Len(Data.maps) : \E k \in 1 .. Len(Data.maps[i].px) : Data.maps[i].px[k][1] # -1})]>>)
 VARIABLE dummy
 TraceSpec == dummy = 0 /\ [][UNCHANGED dummy]_dummy
